@@ -45,7 +45,7 @@ CONSTANTS Callers,     \* caller / waiter identities (strings)
 
 (* ------------------------------------------------------------ the constructor table *)
 OnceKinds   == {"Worker.Once", "Operation.Once", "Producer.Once", "Processor.Once", "Handler.Once", "Future.Once",
-                "adt.Once.Resolve", "adt.Once.Do", "adt.Mnemonize", "ft.Once", "ft.OnceDo",
+                "adt.Once.Resolve", "adt.Once.Do", "adt.Once.DoOnly", "adt.Mnemonize", "ft.Once", "ft.OnceDo",
                 "Worker.Once.Lock", "Worker.Lock.Once", "Producer.Limit.Once"}
 LimitKinds  == {"Worker.Limit", "Processor.Limit", "Producer.Limit", "Future.Limit",
                 "Worker.Limit.Lock", "Worker.Lock.Limit"}
